@@ -11,6 +11,8 @@ CONSTANTS
   CRProg <- T_CR
   Forms = {"fresh", "once"}
   Colls = {"k1", "k2"}
+  LAs <- T_LAs
+  DropOn = TRUE
   QuitOn = TRUE
   QuitDeferred = FALSE
   DefCap = 2
